@@ -15,6 +15,8 @@ REPO = os.environ.get("VERIF_REPO", "/repo")
 COQ = os.path.join(ROOT, "coq")
 PY = "/venv/bin/python"
 NPROC = os.cpu_count() or 4
+# evidence directory (overridable so that runs against scratch worktrees never clobber the committed evidence)
+EVID = os.environ.get("VERIF_EVIDENCE", os.path.join(ROOT, "evidence"))
 
 # axioms the standard library itself declares and that our theorems may depend on (DESIGN §7)
 ALLOWED_AXIOMS = {
@@ -222,14 +224,14 @@ class Check:
         self.known_lines = []
         self.coverage = {}
         self.assumptions = []
-        os.makedirs(os.path.join(ROOT, "evidence"), exist_ok=True)
-        os.makedirs(os.path.join(ROOT, "evidence", "replay"), exist_ok=True)
-        for f in os.listdir(os.path.join(ROOT, "evidence", "replay")):
+        os.makedirs(EVID, exist_ok=True)
+        os.makedirs(os.path.join(EVID, "replay"), exist_ok=True)
+        for f in os.listdir(os.path.join(EVID, "replay")):
             if f.startswith(prop + "_"):
-                os.remove(os.path.join(ROOT, "evidence", "replay", f))
+                os.remove(os.path.join(EVID, "replay", f))
 
     def replay_path(self, tag):
-        return os.path.join(ROOT, "evidence", "replay", "%s_%s.json" % (self.prop, tag))
+        return os.path.join(EVID, "replay", "%s_%s.json" % (self.prop, tag))
 
     def violation(self, tag, payload, no_input=False):
         path = self.replay_path(tag)
@@ -252,7 +254,7 @@ class Check:
             "wall_s": round(time.time() - self.t0, 2),
             "violations": len(self.violations),
         }
-        json.dump(ev, open(os.path.join(ROOT, "evidence", "%s.json" % self.prop), "w"), indent=1, default=str)
+        json.dump(ev, open(os.path.join(EVID, "%s.json" % self.prop), "w"), indent=1, default=str)
         for path, suffix in self.violations:
             print("VIOLATION property=%s replay=%s%s" % (self.prop, path, suffix))
         cleanup_run_dir()
